@@ -188,6 +188,17 @@ theorem inv_logout (s : State) (k : Nat) (h : LoginInv s) : LoginInv (stepLogout
       | some v => rw [hlo'] at hl; exact (Option.some.inj hl).symm
     · simp [hid] at hl; exact h.noSessPublic id l hl hse
 
+theorem anyE_setSess_same (t : HTable) (k : Nat) (ss x : Sess) (c : Nat) (hwf : t.WF c) (hs : t.getSess k = some ss)
+    (h1 : x.slot = ss.slot) (h2 : x.rw = ss.rw) (q : Ent → Bool)
+    (hq : ∀ x y : Sess, x.slot = y.slot → x.rw = y.rw → q (.sess x) = q (.sess y)) :
+    anyE (t.setSess k x) q = anyE t q := by
+  apply anyE_setSess
+  intro e he
+  have := mem_unique hwf he (getSess_mem hs)
+  subst this
+  simp [updSess, replSess]
+  exact hq _ _ h1 h2
+
 /-- SO login at `slot` under the conditions `Token::loginSO` / `C_Login` check -/
 theorem LInv.login_so {ss : List Slot} {tb : HTable} {slot : Nat} {t t' : Tok} (h : LInv ss tb)
     (ht : findTok ss slot = some t) (hro : tb.haveROSession slot = false) (hu : t.userIn = false)
@@ -225,7 +236,7 @@ theorem LInv.login_user {ss : List Slot} {tb : HTable} {slot : Nat} {t t' : Tok}
     · subst hid; rw [hsess] at hse; simp at hse
     · simp [hid] at hl; exact h.noSessPublic id l hl hse
 
-theorem inv_login (s : State) (k u : Nat) (p : Option Bytes) (h : LoginInv s) : LoginInv (stepLogin s k u p).1 := by
+theorem inv_login (s : State) (hwf : s.WF) (k u : Nat) (p : Option Bytes) (h : LoginInv s) : LoginInv (stepLogin s k u p).1 := by
   unfold LoginInv at *
   unfold stepLogin
   split
@@ -249,7 +260,12 @@ theorem inv_login (s : State) (k u : Nat) (p : Option Bytes) (h : LoginInv s) : 
           · exact h.of_setTok_same ht rfl rfl
           · rename_i hso hu _ up hup hp
             exact h.login_user ht (by simpa using hso) hsess rfl
-        · exact h
+        · -- context specific: flags of the token unchanged, the session keeps slot and R/W flag
+          step_cases <;> try exact h
+          all_goals first
+            | exact h.of_setTok_same ht rfl rfl
+            | exact (h.of_setTok_same ht (by rfl) (by rfl)).of_sess_same
+                (fun q _ hq2 => anyE_setSess_same s.handles k ss _ s.counter hwf hs (by rfl) (by rfl) q hq2)
         · exact h
 
 theorem any_mono {α} (l : List α) (p q : α → Bool) (h : ∀ a, p a = true → q a = true) (hq : l.any q = false) :
@@ -448,17 +464,6 @@ theorem inv_objProbe (s : State) (k o : Nat) (h : LoginInv s) : LoginInv (stepOb
   unfold stepObjProbe
   step_cases <;> exact h
 
-theorem anyE_setSess_same (t : HTable) (k : Nat) (ss x : Sess) (c : Nat) (hwf : t.WF c) (hs : t.getSess k = some ss)
-    (h1 : x.slot = ss.slot) (h2 : x.rw = ss.rw) (q : Ent → Bool)
-    (hq : ∀ x y : Sess, x.slot = y.slot → x.rw = y.rw → q (.sess x) = q (.sess y)) :
-    anyE (t.setSess k x) q = anyE t q := by
-  apply anyE_setSess
-  intro e he
-  have := mem_unique hwf he (getSess_mem hs)
-  subst this
-  simp [updSess, replSess]
-  exact hq _ _ h1 h2
-
 theorem inv_find (s : State) (hwf : s.WF) (k m : Nat) (h : LoginInv s) : LoginInv (stepFind s k m).1 := by
   unfold LoginInv at *
   unfold stepFind
@@ -562,7 +567,7 @@ theorem linv_step (s : State) (c : Call) (hwf : s.WF) (h : LoginInv s) : LoginIn
   | closeSession k => simp only [step, guardInit]; split <;> first | exact h | exact inv_closeSession s hwf k h
   | closeAll slot => simp only [step, guardInit]; split <;> first | exact h | exact inv_closeAll s slot h
   | sessInfo k => simp only [step, guardInit]; split <;> first | exact h | exact inv_sessInfo s k h
-  | login k u p => simp only [step, guardInit]; split <;> first | exact h | exact inv_login s k u p h
+  | login k u p => simp only [step, guardInit]; split <;> first | exact h | exact inv_login s hwf k u p h
   | logout k => simp only [step, guardInit]; split <;> first | exact h | exact inv_logout s k h
   | initPin k p => simp only [step, guardInit]; split <;> first | exact h | exact inv_initPin s k p h
   | setPin k o n => simp only [step, guardInit]; split <;> first | exact h | exact inv_setPin s k o n h
